@@ -34,6 +34,7 @@ The recursive case (delimiter "") is covered by the correspondence check only.
 import SwV.Model.C27
 import SwV.Spec.C27
 import SwV.Lemmas.C27
+import SwV.Gen.C27
 namespace SwV.Props.C27
 open SwV.Model.C19 (Bytes ltB isPrefix)
 open SwV.Model.C27 SwV.Spec.C27 SwV.Lemmas.C27 SwV.Lemmas.C19
@@ -165,5 +166,170 @@ theorem nested_marker_overfills_and_loses :
 /-- GET ?delimiter=/&marker=/ : the listing deletes the non-empty directories `a` and `ab` -/
 theorem listing_deletes_directories :
     (walk [] 1000 true true 1 ksClean (s "/")).2 = bucket ["a.b", "b"] := by decide
+
+/-! ## T1 bridges: facts regenerated from the source by `extract` (props/C27/extract.json → `SwV.Gen.C27`)
+
+Each theorem states the text of the decisive Go conditions / call arguments as they stand in the working tree
+together with the model equation that mirrors them; an edit to the Go code changes the generated string and
+breaks the theorem of that name. -/
+
+/-- the V1 / V2 handlers: admitted delimiters and the marker handed to `listFilerEntries`
+    (V2: the continuation token, or `start-after` when there is no token) -/
+theorem bridge_handlers :
+    SwV.Gen.C27.v2_bad_maxkeys = "maxKeys < 0" ∧
+    SwV.Gen.C27.v2_bad_delimiter = "delimiter != \"\" && delimiter != \"/\"" ∧
+    SwV.Gen.C27.v2_marker_token = "marker := continuationToken" ∧
+    SwV.Gen.C27.v2_no_token = "continuationToken == \"\"" ∧
+    SwV.Gen.C27.v2_marker_start_after = "marker = startAfter" ∧
+    SwV.Gen.C27.v2_list_marker = "marker" ∧
+    SwV.Gen.C27.v1_bad_maxkeys = "maxKeys < 0" ∧
+    SwV.Gen.C27.v1_bad_delimiter = "delimiter != \"\" && delimiter != \"/\"" ∧
+    SwV.Gen.C27.v1_list_marker = "marker" := by decide
+
+/-- `listFilerEntries`: split of the prefix, the directory string, the call, key / prefix formatting and the
+    clearing of NextMarker on the last page -/
+theorem bridge_list_filer :
+    SwV.Gen.C27.lf_split = "reqDir, prefix := filepath.Split(originalPrefix)" ∧
+    SwV.Gen.C27.lf_lead_slash = "strings.HasPrefix(reqDir, \"/\")" ∧ SwV.Gen.C27.lf_drop_lead = "reqDir = reqDir[1:]" ∧
+    SwV.Gen.C27.lf_bucket_prefix_fmt = "\"%s/%s/\"" ∧ SwV.Gen.C27.lf_reqdir_fmt = "\"%s%s\"" ∧
+    SwV.Gen.C27.lf_trail_slash = "strings.HasSuffix(reqDir, \"/\")" ∧
+    SwV.Gen.C27.lf_drop_trail = "reqDir = reqDir[:len(reqDir)-1]" ∧
+    SwV.Gen.C27.lf_call_dir = "reqDir" ∧ SwV.Gen.C27.lf_call_prefix = "prefix" ∧
+    SwV.Gen.C27.lf_call_maxkeys = "maxKeys" ∧ SwV.Gen.C27.lf_call_marker = "marker" ∧
+    SwV.Gen.C27.lf_call_delimiter = "delimiter" ∧
+    SwV.Gen.C27.lf_is_dir = "entry.IsDirectory" ∧ SwV.Gen.C27.lf_dir_as_prefix = "delimiter == \"/\"" ∧
+    SwV.Gen.C27.lf_prefix_fmt = "\"%s/%s/\"" ∧ SwV.Gen.C27.lf_key_fmt = "\"%s/%s\"" ∧
+    SwV.Gen.C27.lf_not_truncated = "!isTruncated" ∧ SwV.Gen.C27.lf_clear_next = "nextMarker = \"\"" ∧
+    (∀ r name : Bytes, keyOf r name = (r ++ [slash] ++ name).drop 1) ∧
+    (∀ (ks : List (List Bytes)) (op : Bytes) (mk : Nat) (marker : Bytes) (d : Bool),
+      (listFiler ks op mk marker d).trunc = false → (listFiler ks op mk marker d).next = []) := by
+  refine ⟨by decide, by decide, by decide, by decide, by decide, by decide, by decide, by decide, by decide,
+    by decide, by decide, by decide, by decide, by decide, by decide, by decide, by decide, by decide,
+    fun _ _ => rfl, ?_⟩
+  intro ks op mk marker d
+  have key : ∀ res : Res, (if res.trunc then res else { res with next := [] }).trunc = false →
+      (if res.trunc then res else { res with next := [] }).next = [] := by
+    intro res; cases h : res.trunc <;> simp [h]
+  exact key _
+
+/-- `doListFilerEntries`, entry guards and the marker split -/
+theorem bridge_do_list_guards :
+    SwV.Gen.C27.dl_slash_prefix = "prefix == \"/\" && delimiter == \"/\"" ∧
+    SwV.Gen.C27.dl_no_budget = "maxKeys <= 0" ∧
+    SwV.Gen.C27.dl_marker_has_slash = "strings.Contains(marker, \"/\")" ∧
+    SwV.Gen.C27.dl_sep = "sepIndex := strings.Index(marker, \"/\")" ∧
+    SwV.Gen.C27.dl_marker_split = "subDir, subMarker := marker[0:sepIndex], marker[sepIndex+1:]" ∧
+    SwV.Gen.C27.dl_sub1_dir = "dir + \"/\" + subDir" ∧ SwV.Gen.C27.dl_sub1_prefix = "\"\"" ∧
+    SwV.Gen.C27.dl_sub1_maxkeys = "maxKeys" ∧ SwV.Gen.C27.dl_sub1_marker = "subMarker" ∧
+    SwV.Gen.C27.dl_sub1_trunc = "isTruncated = isTruncated || subIsTruncated" ∧
+    SwV.Gen.C27.dl_sub1_budget = "maxKeys -= subCounter" ∧
+    SwV.Gen.C27.dl_sub1_next = "nextMarker = subDir + \"/\" + subNextMarker" ∧
+    SwV.Gen.C27.dl_sub1_marker_after = "marker = subDir" ∧
+    SwV.Gen.C27.dl_limit = "maxKeys + 1" ∧
+    (∀ (ks : List (List Bytes)) (fuel : Nat) (r : Bytes) (mk : Nat) (marker : Bytes),
+      doList ks true (fuel + 1) r [slash] mk marker = {}) ∧
+    (∀ (ks : List (List Bytes)) (d : Bool) (fuel : Nat) (r pfx marker : Bytes),
+      doList ks d (fuel + 1) r pfx 0 marker = {}) ∧
+    -- a marker without "/" : one store listing of maxKeys+1 entries after the marker
+    (∀ (ks : List (List Bytes)) (d : Bool) (fuel : Nat) (r pfx : Bytes) (mk : Nat) (marker : Bytes),
+      ¬ (pfx = [slash] ∧ d = true) → mk ≠ 0 → cutFirstSlash marker = none →
+      doList ks d (fuel + 1) r pfx mk marker =
+        recvLoop ks (fun r' budget => doList ks d fuel r' [] budget []) d r mk
+          (listPrim (dirEntries ks r) pfx marker (mk + 1)) {}) ∧
+    -- a marker "sub/rest": first the sub-directory with the rest as marker and the WHOLE budget, then this
+    -- level after `sub` with the budget that is left
+    (∀ (ks : List (List Bytes)) (d : Bool) (fuel : Nat) (r pfx : Bytes) (mk : Nat) (marker subDir subMarker : Bytes),
+      ¬ (pfx = [slash] ∧ d = true) → mk ≠ 0 → cutFirstSlash marker = some (subDir, subMarker) →
+      doList ks d (fuel + 1) r pfx mk marker =
+        (let s := doList ks d fuel (r ++ [slash] ++ subDir) [] mk subMarker
+         let ks2 := removeDirs ks s.deleted
+         recvLoop ks2 (fun r' budget => doList ks d fuel r' [] budget []) d r (mk - s.counter)
+           (listPrim (dirEntries ks2 r) pfx subDir (mk - s.counter + 1))
+           { counter := 0, trunc := s.trunc, next := subDir ++ [slash] ++ s.next, keys := s.keys, pfxs := s.pfxs,
+             deleted := s.deleted })) := by
+  refine ⟨by decide, by decide, by decide, by decide, by decide, by decide, by decide, by decide, by decide,
+    by decide, by decide, by decide, by decide, by decide, ?_, ?_, ?_, ?_⟩
+  · intro ks fuel r mk marker; simp [doList]
+  · intro ks d fuel r pfx marker; simp [doList]
+  · intro ks d fuel r pfx mk marker h1 h2 h3
+    simp only [doList, h1, h2, h3, if_false]
+  · intro ks d fuel r pfx mk marker subDir subMarker h1 h2 h3
+    simp only [doList, h1, h2, h3, if_false]
+
+/-- the bytes the model skips are the name in the source condition -/
+theorem bridge_uploads_name :
+    SwV.Gen.C27.dl_skip_uploads = "entry.Name != \".uploads\"" ∧
+    String.ofList (uploadsName.map Char.ofNat) = ".uploads" := by decide
+
+/-- the receive loop of `doListFilerEntries` (`recvLoop`) -/
+theorem bridge_do_list_loop :
+    SwV.Gen.C27.dl_budget_used = "counter >= maxKeys" ∧ SwV.Gen.C27.dl_set_truncated = "isTruncated = true" ∧
+    SwV.Gen.C27.dl_next_is_name = "nextMarker = entry.Name" ∧ SwV.Gen.C27.dl_is_dir = "entry.IsDirectory" ∧
+    SwV.Gen.C27.dl_recursive = "delimiter != \"/\"" ∧
+    SwV.Gen.C27.dl_sub2_dir = "dir + \"/\" + entry.Name" ∧ SwV.Gen.C27.dl_sub2_prefix = "\"\"" ∧
+    SwV.Gen.C27.dl_sub2_maxkeys = "maxKeys - counter" ∧ SwV.Gen.C27.dl_sub2_marker = "\"\"" ∧
+    SwV.Gen.C27.dl_sub2_count = "counter += subCounter" ∧
+    SwV.Gen.C27.dl_sub2_next = "nextMarker = entry.Name + \"/\" + subNextMarker" ∧
+    SwV.Gen.C27.dl_sub2_trunc = "subIsTruncated" ∧
+    SwV.Gen.C27.dl_check_empty = "!s3a.option.AllowEmptyFolder" ∧
+    SwV.Gen.C27.dl_empty_dir = "dir" ∧ SwV.Gen.C27.dl_empty_name = "entry.Name" ∧
+    SwV.Gen.C27.dl_not_empty = "!isEmpty" ∧
+    SwV.Gen.C27.empty_dir_string = "currentDir := parentDir + \"/\" + name" ∧
+    -- budget used up and one more entry arrives: truncated, nothing else changes
+    (∀ ks sub d r mk (e : Ent) rest (st : Res), st.counter ≥ mk →
+      recvLoop ks sub d r mk (e :: rest) st = { st with trunc := true }) ∧
+    -- a file: emitted, counted, remembered as next marker
+    (∀ ks sub d r mk (e : Ent) rest (st : Res), st.counter < mk → e.expired = false →
+      recvLoop ks sub d r mk (e :: rest) st =
+        recvLoop ks sub d r mk rest { st with next := e.key, counter := st.counter + 1, keys := st.keys ++ [keyOf r e.key] }) ∧
+    -- the `.uploads` directory: skipped, not counted, but it becomes the next marker
+    (∀ ks sub d r mk (e : Ent) rest (st : Res), st.counter < mk → e.expired = true → e.key = uploadsName →
+      recvLoop ks sub d r mk (e :: rest) st = recvLoop ks sub d r mk rest { st with next := e.key }) := by
+  refine ⟨by decide, by decide, by decide, by decide, by decide, by decide, by decide, by decide, by decide,
+    by decide, by decide, by decide, by decide, by decide, by decide, by decide, by decide, ?_, ?_, ?_⟩
+  · intro ks sub d r mk e rest st h
+    simp [recvLoop, h]
+  · intro ks sub d r mk e rest st h he
+    have : ¬ st.counter ≥ mk := by omega
+    simp [recvLoop, this, he]
+  · intro ks sub d r mk e rest st h he hk
+    have : ¬ st.counter ≥ mk := by omega
+    simp [recvLoop, this, he, hk]
+
+/-- the filer's gRPC `ListEntries` behind every `client.ListEntries` of the gateway: pages of
+    `filer.PaginationSize`, each continuing (exclusively) after the last name of the one before, until the
+    request limit is used up or a page comes back empty.  The model's `listPrim` is the page-size independent
+    reading of that loop: the first `limit` matching entries after the start name — asking for more only
+    appends. -/
+theorem bridge_filer_list_entries :
+    SwV.Gen.C27.PaginationSize = 1024 ∧
+    SwV.Gen.C27.le_limit = "limit := int(req.Limit)" ∧ SwV.Gen.C27.le_default_limit = "limit == 0" ∧
+    SwV.Gen.C27.le_page = "paginationLimit := filer.PaginationSize" ∧
+    SwV.Gen.C27.le_small_page = "limit < paginationLimit" ∧
+    SwV.Gen.C27.le_start = "lastFileName := req.StartFromFileName" ∧
+    SwV.Gen.C27.le_inclusive = "includeLastFile := req.InclusiveStartFrom" ∧
+    SwV.Gen.C27.le_loop = "limit > 0" ∧
+    SwV.Gen.C27.le_page_dir = "util.FullPath(req.Directory)" ∧ SwV.Gen.C27.le_page_start = "lastFileName" ∧
+    SwV.Gen.C27.le_page_inclusive = "includeLastFile" ∧ SwV.Gen.C27.le_page_limit = "int64(paginationLimit)" ∧
+    SwV.Gen.C27.le_page_prefix = "req.Prefix" ∧
+    SwV.Gen.C27.le_budget_used = "limit == 0" ∧ SwV.Gen.C27.le_no_more = "!hasEntries" ∧
+    SwV.Gen.C27.le_next_exclusive = "includeLastFile = false" ∧
+    SwV.Gen.C27.src_ListEntries = "a529ac5cf6e00a23" ∧
+    (∀ (es : List Ent) (pfx start : Bytes) (limit : Nat), (listPrim es pfx start limit).length ≤ limit) ∧
+    (∀ (es : List Ent) (pfx start : Bytes) (limit k : Nat),
+      (listPrim es pfx start (limit + k)).take limit = listPrim es pfx start limit) := by
+  refine ⟨by decide, by decide, by decide, by decide, by decide, by decide, by decide, by decide, by decide,
+    by decide, by decide, by decide, by decide, by decide, by decide, by decide, by decide, ?_, ?_⟩
+  · intro es pfx start limit
+    simp only [listPrim, List.length_take]; omega
+  · intro es pfx start limit k
+    simp only [listPrim, List.take_take]
+    congr 1; omega
+
+/-- weakest supplement: hashes of the whole mirrored functions -/
+theorem bridge_pins :
+    SwV.Gen.C27.src_doListFilerEntries = "4147ac9cc9bf10fd" ∧ SwV.Gen.C27.src_listFilerEntries = "5dbe6000e5cbfaa1" ∧
+    SwV.Gen.C27.src_ListObjectsV2Handler = "2efe800a81b9f715" ∧ SwV.Gen.C27.src_ListObjectsV1Handler = "4e193cccafe68007" ∧
+    SwV.Gen.C27.src_isDirectoryAllEmpty = "fda41e94bab77240" := by decide
 
 end SwV.Props.C27
